@@ -15,9 +15,9 @@ import (
 )
 
 var bindTypes = []string{"Plain", "OptNull", "Tuple", "Join", "Pairs", "MapSI", "ListS", "UnionK", "UnionKinded", "UnionSP", "EnumS", "EnumI",
-	"MapSU", "ListU", "MapSP", "ListT", "MapSN", "ListN", "OptComp", "OptMore", "UnionKinded2", "ListNP", "AllOpt", "Swap", "EnumX", "OptOne", "ListOO", "MapOO", "Outer"}
+	"MapSU", "ListU", "MapSP", "ListT", "MapSN", "ListN", "OptComp", "OptMore", "UnionKinded2", "ListNP", "AllOpt", "Swap", "LeadOpt", "TupleOpt", "UnionSP2", "TupleON", "LeadOptLP", "EnumX", "OptOne", "ListNA", "MapSA", "WithAny", "ListOO", "MapOO", "Outer"}
 var genTypes = []string{"Plain", "OptNull", "Tuple", "Join", "MapSI", "ListS", "UnionK", "UnionKinded", "UnionSP",
-	"MapSU", "ListU", "MapSP", "ListT", "MapSN", "ListN", "OptComp", "OptMore", "UnionKinded2", "ListNP", "AllOpt", "Swap", "OptOne", "ListOO", "MapOO", "Outer"}
+	"MapSU", "ListU", "MapSP", "ListT", "MapSN", "ListN", "OptComp", "OptMore", "UnionKinded2", "ListNP", "AllOpt", "Swap", "LeadOpt", "TupleOpt", "UnionSP2", "TupleON", "OptOne", "ListOO", "MapOO", "Outer"}
 
 func hasDup(v *refval.V) bool {
 	if v.K == refval.Map {
